@@ -7,7 +7,8 @@ Open Scope Z_scope.
 
 Inductive cmd :=
 | CSwap (d : Z) | CDup (d : Z) | CSpill (d : Z) | CRestore (op : Z) | CRelease (live : list Z)
-| CReorder (dry : bool) (ops : list Z) | CPop (n : Z) | CPush (x : Z) | CSwapOp (x : Z) | CDupOp (x : Z).
+| CReorder (dry : bool) (ops : list Z) | CPop (n : Z) | CPush (x : Z) | CSwapOp (x : Z) | CDupOp (x : Z)
+| CEmit (invoke : bool) (ops live : list Z) | CPopMany (xs : list Z).
 
 Record world := mkW { w_a : list ainstr; w_m : list Z; w_s : sp; w_d : spilled; w_costs : list Z }.
 
@@ -35,6 +36,8 @@ Definition run_cmd (classes : list (Z * Z)) (c : cmd) (w : world) : res world :=
                  | None => Err AssertFail
                  | Some dp => match sp_swap false dp a m s with Ok (a', m', s', c') => Ok (mkW a' m' s' d (costs ++ [c'])) | Err e => Err e end
                  end
+  | CEmit inv ops live => match emit_inputs inv ops live a m s d with Ok (a', m', s', d') => Ok (mkW a' m' s' d' costs) | Err e => Err e end
+  | CPopMany xs => match popmany xs a m s with Ok (a', m', s') => Ok (mkW a' m' s' d costs) | Err e => Err e end
   | CDupOp x => match spec_get_depth m x with
                 | None => Err AssertFail
                 | Some dp => match sp_dup false dp a m s with Ok (a', m', s', c') => Ok (mkW a' m' s' d costs) | Err e => Err e end
